@@ -29,6 +29,7 @@ REVERTS = [
     ('F29-zero-length-read', '53a7565', {'C09': ['trailing:read:not-on-empty-request'], 'C03': ['trailing:read:not-on-empty-request']}),
     ('F30-fill-buffer-interrupted', 'c218117', {'C09': ['S09-5:fill-retries-interrupted']}),
     ('F31-dearmor-partial-header', '177d538', {'C09': ['S09-7:partial-buffer-verdict'], 'C10': ['S09-7:partial-buffer-verdict']}),
+    ('F32-lock-accepts-what-unlock-refuses', '7b8a27e', {'C08': ['lock-unlock:']}),
     ('F23-boolean-subpackets', '1b5ba7a', {'C05': ['S05-8:lossless-bool'], 'C02': ['S05-8:lossless-bool']}),
 ]
 tests = [dict(name='revert:' + n, kind='revert-fix', commit=c, expect=e) for n, c, e in REVERTS]
